@@ -6,6 +6,7 @@ CONSTANTS
   Sizes = {2, 3}
   KvPool <- KvPoolFull
   TokPool <- TokPoolFull
+  MixPool <- MixPoolFull
   Extra <- FourProcTwoExcl
   GFirst = TRUE
   SelDet = FALSE
